@@ -64,6 +64,11 @@ def execute(case, ctx):
         sig["kf"] = "online-chunk-budget-below-batch"
     if run.exc is not None:
         from .. import simworld
+        other = simworld.api_raises_too(run, case)
+        if other:
+            ctx.fired("probe.simulator_and_api_both_raise")
+            ctx.ev("both_raise", type(run.exc).__name__, other)
+            return
         ctx.violate("simulator-raised", 0, {"exc": type(run.exc).__name__, "msg": str(run.exc)[:200]},
                     **simworld.exc_sig(run, case, sig))
         return
